@@ -41,3 +41,39 @@ Definition the_types : list (string * option sch) :=
 
 Definition request_sch : option sch := Eval vm_compute in the_elab "Request".
 Definition response_sch : option sch := Eval vm_compute in the_elab "Response".
+
+(* ---------- the type environment of the codec model: getStructDesc by type name ---------- *)
+Require Import Codec Bytes.
+
+Definition the_type_table : list (string * (N * flist)) :=
+  Eval vm_compute in
+    flat_map (fun n =>
+      match the_desc n, the_elab n with
+      | ROk sd, Some (SStruct _ fl) => [(n, (sd_tag sd, fl))]
+      | _, _ => []
+      end) all_type_names.
+
+Definition inst_T (ty : string) : option (N * flist) := assoc ty the_type_table.
+
+Definition inst_enc_top (v : val) : option bytes := enc_top inst_T v.
+
+Definition inst_dec_top (ty : string) (bs : bytes) : dres (val * N * dstate) :=
+  match inst_T ty with
+  | Some (tag, fl) => dec_top ty tag fl {| rest := bs; last := 0 |}
+  | None => Err
+  end.
+
+Definition inst_normalize (v : val) : val :=
+  match v with
+  | VStruct ty vs | VPtr (VStruct ty vs) =>
+      match inst_T ty with Some (_, fl) => VStruct ty (normalize_fields inst_T fl vs) | None => v end
+  | _ => v
+  end.
+
+(* the item type codes the model uses are the ones consts.go declares *)
+Definition type_codes_b : bool :=
+  forallb (fun p => match const_value (fst p) with Some v => v =? snd p | None => false end)
+    [("STRUCTURE", tc_structure); ("INTEGER", type_code KInt); ("LONG_INTEGER", type_code KLong);
+     ("ENUMERATION", type_code KEnum); ("BOOLEAN", type_code KBool); ("TEXT_STRING", type_code KStr);
+     ("BYTE_STRING", type_code KBytes); ("DATE_TIME", type_code KTime); ("INTERVAL", type_code KDur);
+     ("ANY_TAG", ANY_TAG)].
